@@ -122,7 +122,82 @@ FIXED = {
 }
 
 
+# The LATTICE of imperfections: which of the four parameters differ from their ideal value, times the
+# multiphoton model.  The code under test decides between its branches with predicates over exactly this
+# lattice (`is_perfect`, `partially_distinguishable`, the truthiness short-cuts of `_compute_prob_table`), so a
+# wrong predicate shows only in the cells it misjudges — typically one where a SINGLE parameter is imperfect
+# (e.g. g2 > 0 alone, indistinguishable model).  Every cell is a required class of every kind of observation.
+# axis letter: b = brightness < 1, g = g2 > 0, h = indistinguishability < 1, l = 0 < transmittance < 1,
+# L = transmittance 0.
+AXES = (("beta", "b", (F(3, 4),)), ("q", "g", (F(3, 5),)), ("r", "h", (F(4, 5),)), ("eta", "l", (F(3, 4),)))
+AXIS_GRID = {"beta": BETAS, "q": QS, "r": RS, "eta": ETAS}
+
+
+def cell_of(P):
+    """name of the lattice cell of a parameter tuple, e.g. 'g:indist', 'none:dist', 'b+g+h+l:dist'"""
+    d = derived(P)
+    on = []
+    if d["beta"] != 1:
+        on.append("b")
+    if d["g2"] != 0:
+        on.append("g")
+    if d["ind"] != 1:
+        on.append("h")
+    if d["eta"] != 1:
+        on.append("L" if d["eta"] == 0 else "l")
+    return ("+".join(on) or "none") + (":dist" if d["model"] == DIST else ":indist")
+
+
+def lattice_params(mask, model, total_loss=False, rng=None):
+    """the parameter tuple of a cell: the axes in `mask` (bits 0..3 = b, g, h, l) take a non-ideal value (the
+    fixed one, or with `rng` any non-ideal value of the grid), the others are exactly ideal"""
+    for _ in range(200):
+        v = {"beta": F(1), "q": F(1), "r": F(1), "eta": F(1)}
+        for bit, (key, _, fixed) in enumerate(AXES):
+            if mask >> bit & 1:
+                if key == "eta" and total_loss:
+                    v[key] = F(0)
+                elif rng is None:
+                    v[key] = fixed[0]
+                else:
+                    v[key] = rng.choice([x for x in AXIS_GRID[key] if x != 1 and (key != "eta" or x != 0)])
+        P = spec(v["beta"], v["q"], v["eta"], v["r"], model)
+        if valid(P):
+            return P
+    raise AssertionError("no admissible tuple for lattice cell")
+
+
+def build_lattice():
+    out = {}
+    for mask in range(16):
+        for model in (DIST, INDIST):
+            P = lattice_params(mask, model)
+            out[cell_of(P)] = P
+            if mask & 8:
+                P = lattice_params(mask, model, total_loss=True)
+                out[cell_of(P)] = P
+    return out
+
+
+LATTICE = build_lattice()
+POOL = list(FIXED.values()) + list(LATTICE.values())
+assert len(LATTICE) == 48 and all(cell_of(P) == k for k, P in LATTICE.items())
+# kinds of observation every cell must go through (cells with total loss: no filtered sampling, the filter
+# cannot be met)
+LATTICE_KINDS = ("gen", "pd", "proc", "table", "samples-nofilter", "samples-filter", "hist-read")
+
+
+def lattice_required():
+    return [f"imp:{c}:{k}" for c in LATTICE for k in LATTICE_KINDS
+            if not (k == "samples-filter" and "L" in c.split(":")[0])]
+
+
 def rand_params(rng):
+    if rng.random() < 0.3:
+        # a random cell of the imperfection lattice with random non-ideal values on the switched-on axes (a
+        # uniformly random tuple has almost never a parameter EXACTLY at its ideal value)
+        return lattice_params(rng.randrange(16), rng.choice([DIST, INDIST]), total_loss=rng.random() < 0.1,
+                              rng=rng)
     for _ in range(1000):
         if rng.random() < 0.5:
             beta, q, eta, r = rng.choice(BETAS), rng.choice(QS), rng.choice(ETAS), rng.choice(RS)
@@ -579,6 +654,55 @@ def judge_table(chk, case):
     return None
 
 
+def priors_of(case):
+    pr = case.get("prior")
+    return [] if not pr else (pr if isinstance(pr, list) else [pr])
+
+
+def filter_reachable(P, n, f):
+    """does an input of n photons give at least f photons with positive probability?"""
+    d = derived(P)
+    if f == 0:
+        return True
+    if d["beta"] * d["eta"] == 0:
+        return False
+    return f <= (2 * n if d["g2"] != 0 else n)
+
+
+def prior_requests(P, ns, f, shape):
+    """earlier requests on the same Source object whose cached event table must NOT serve the request (ns, f):
+    'stricter' = same photon number (another arrangement), stricter filter; 'weaker' = same photon number, weaker
+    non-zero filter; 'other-n' = same filter, another photon number; 'two' = two earlier requests.
+    Falls back to 'other-n' when the shape does not exist for this setting."""
+    n = sum(ns)
+    arr = sorted(ns) if sorted(ns) != ns else list(reversed(ns))
+    if shape == "stricter" and filter_reachable(P, n, f + 1):
+        return [{"ns": arr, "f": f + 1}]
+    if shape == "weaker" and f > 1:
+        return [{"ns": arr, "f": f - 1}]
+    if shape == "two" and filter_reachable(P, n, f + 1):
+        return [{"ns": ns + [1], "f": f}, {"ns": ns, "f": f + 1}]
+    return [{"ns": ns + [1], "f": f}]
+
+
+def prior_shapes(case):
+    """which relations the LAST earlier request has to the judged one (the cache holds the last table)"""
+    pr = priors_of(case)
+    if not pr or not case["f"]:
+        return []
+    out = ["samples-after-other-request"]
+    last, n, f = pr[-1], sum(case["ns"]), case["f"]
+    if sum(last["ns"]) == n and last["f"] > f:
+        out.append("samples-after-stricter-filter-same-n")
+    if sum(last["ns"]) == n and 0 < last["f"] < f:
+        out.append("samples-after-weaker-filter-same-n")
+    if sum(last["ns"]) != n and last["f"] == f:
+        out.append("samples-after-other-n-same-filter")
+    if len(pr) > 1:
+        out.append("samples-after-two-requests")
+    return out
+
+
 def judge_samples(chk, case):
     """generate_samples: goodness-of-fit TEST against the exact model law (conditioned on the filter)."""
     import perceval as pcvl
@@ -590,8 +714,7 @@ def judge_samples(chk, case):
     try:
         src = mk_source(P)
         advance(src, case.get("pre", 0))
-        prior = case.get("prior")
-        if prior:          # an earlier, different request on the same object (the event table is cached)
+        for prior in priors_of(case):   # earlier, different requests on the same object (event table cached)
             if prior.get("cache"):
                 src.cache_prob_table(sum(prior["ns"]), prior["f"])
             else:
@@ -635,6 +758,30 @@ def judge_samples(chk, case):
         return ("violation", "sampler-law" + ("-filter" if f else ""),
                 f"goodness-of-fit test (level {ALPHA:g}) rejects that generate_samples draws from "
                 f"generate_distribution{' conditioned on the filter' if f else ''}: {bad2}", case)
+    # ... and the count clause of the property on the samples themselves (exact closed form, no Lean, no
+    # generate_distribution): per-mode photon counts ~ product of the n-fold convolutions of (pi0, pi1, pi2),
+    # conditioned on the filter.  Confirms the failure when sampler and distribution builder are wrong TOGETHER.
+    pi, _ = closed_forms(P)
+    per_mode = [conv_pow(pi, k) for k in ns]
+    law = {}
+    for c in itertools.product(*[range(len(v)) for v in per_mode]):
+        w = F(1)
+        for i, k in enumerate(c):
+            w *= per_mode[i][k]
+        if w != 0 and sum(c) >= f:
+            law[c] = w
+    tot = sum(law.values())
+    ccounts = {}
+    for m in modes:
+        c = tuple(len(t) for t in m)
+        ccounts[c] = ccounts.get(c, 0) + 1
+    if tot > 0:
+        bad3 = gof(ccounts, n, {c: w / tot for c, w in law.items()})
+        if bad3 is not None:
+            return ("violation", "sampler-count-law" + ("-filter" if f else ""),
+                    f"goodness-of-fit test (level {ALPHA:g}) rejects that the photon counts per mode of "
+                    f"generate_samples({ns}{', min_detected_photons=%d' % f if f else ''}) follow the law fixed by "
+                    f"brightness/g2/transmittance: {bad3}", case)
     return ("broken", "model-vs-code:samples", "goodness-of-fit test against the exact model law fails: " + bad, case)
 
 
@@ -707,6 +854,11 @@ class HistBook:
             diff = [k for k in ("beta", "q", "eta", "r", "model") if st["P"][k] != self.vals[st["id"]][k]]
             if len(diff) == 1:
                 self.shapes.add("hist-only-" + diff[0] + "-changes")
+                k = diff[0]
+                if k != "model" and st["id"] == self.held and \
+                        (F(st["P"][k]) == 1) != (F(self.vals[st["id"]][k]) == 1):
+                    # the single changed parameter moves between its ideal value and a non-ideal one
+                    self.shapes.add(f"hist-{k}-{'becomes' if F(st['P'][k]) == 1 else 'leaves'}-ideal")
             self.vals[st["id"]] = st["P"]
             if st["id"] == self.held:
                 self.dirty = True
@@ -877,6 +1029,8 @@ def judge_hist(chk, case):
                 return ("violation", "no-distribution",
                         f"{where}: source_distribution is None although an input was given", case)
             entries = svd_entries(svd)
+            if sum(ns_req) > 0:
+                chk.branch(f"imp:{cell_of(Pcur)}:hist-read")
             orc = oracle_distribution(Pcur, ns_req, entries) if thr is None or thr <= 1e-16 else \
                 oracle_structure(Pcur, ns_req, entries, normalised=True)
             if orc is not None:
@@ -1171,6 +1325,10 @@ def handle(chk, case):
                ("nonpd-g2" if d["g2"] != 0 else "nonpd-plain"))
         chk.branch(cls)
         chk.count("param_class", cls)
+        cell = cell_of(P)
+        chk.count("imperfection_cell", cell)
+        lk = kind if kind != "samples" else ("samples-filter" if case["f"] else "samples-nofilter")
+        chk.branch(f"imp:{cell}:{lk}")
         if d["g2"] > 0 and d["eta"] < 1 and d["ind"] < 1:
             chk.branch("g2-loss-hom-together")
         if d["eta"] == 0:
@@ -1194,8 +1352,8 @@ def handle(chk, case):
                 chk.branch("table-range-quirk")
         if kind == "samples":
             chk.branch("samples-filter" if case["f"] else "samples-nofilter")
-            if case.get("prior") and case["f"]:
-                chk.branch("samples-after-other-request")
+            for sh in prior_shapes(case):
+                chk.branch(sh)
         if kind == "proc":
             chk.branch("proc")
             chk.branch("proc-" + case.get("order", "ctor"))
@@ -1263,7 +1421,9 @@ def run(chk: core.Check):
     chk.required_branches = ["pd-dist", "pd-indist", "nonpd-g2", "nonpd-plain", "perfect", "g2-loss-hom-together",
                              "eta-zero", "tag-offset", "thr-explicit", "trim-active", "single-mode-shortcut",
                              "zero-photon-mode", "table-filter", "table-nofilter", "table-range-quirk",
-                             "table-zero-perf", "samples-filter", "samples-nofilter", "samples-after-other-request", "proc",
+                             "table-zero-perf", "samples-filter", "samples-nofilter", "samples-after-other-request",
+                             "samples-after-stricter-filter-same-n", "samples-after-weaker-filter-same-n",
+                             "samples-after-other-n-same-filter", "samples-after-two-requests", "proc",
                              "proc-ctor", "proc-noise-after", "proc-renoise", "proc-reinput", "loss-only",
                              "rejected-stream",
                              "hist", "hist-inplace-ref", "hist-inplace-getter", "hist-inplace-reassign",
@@ -1274,6 +1434,9 @@ def run(chk: core.Check):
                              "hist-read-cached", "hist-read-regenerates", "hist-read-source",
                              "hist-dirty-read-unjudged", "hist-only-beta-changes", "hist-only-q-changes",
                              "hist-only-eta-changes", "hist-only-r-changes", "hist-only-model-changes"]
+    chk.required_branches += [f"hist-{k}-{w}-ideal" for k in ("beta", "q", "eta", "r") for w in ("becomes", "leaves")]
+    # every cell of the imperfection lattice through every kind of observation
+    chk.required_branches += lattice_required()
     chk.lean = core.LeanDriver("C06")
     rng = chk.rng
 
@@ -1288,6 +1451,59 @@ def run(chk: core.Check):
         cap = 6 if pd else 9
         for ns in all_inputs(3, per_mode, cap):
             cases.append({"kind": "gen", "P": P, "ns": ns})
+    # 1b. the imperfection lattice: every cell (fixed non-ideal values; thorough: random non-ideal values too)
+    #     through every kind of observation
+    lat = [(c, P) for c, P in LATTICE.items()]
+    for _ in range(chk.pick(0, 3)):
+        for mask in range(16):
+            for model in (DIST, INDIST):
+                P = lattice_params(mask, model, rng=rng)
+                lat.append((cell_of(P), P))
+    lat_inputs = chk.pick([[1], [2], [1, 1], [0, 2], [1, 0, 1], [2, 1]], all_inputs(3, 2, 4))
+    n_lat = chk.pick(8000, 40000)
+    for il, (cell, P) in enumerate(lat):
+        for ns in lat_inputs:
+            cases.append({"kind": "gen", "P": P, "ns": ns})
+        for n in (1, 2, 3):
+            cases.append({"kind": "pd", "P": P, "n": n})
+        for io, order in enumerate(("ctor", "noise-after", "renoise", "reinput")):
+            cases.append({"kind": "proc", "P": P, "ns": [[1, 0, 1], [1, 1], [2], [1, 2]][(il + io) % 4], "order": order})
+        for n, f in ((2, 0), (2, 1), (3, 2), (1, 2)):
+            cases.append({"kind": "table", "P": P, "n": n, "f": f, "cache": (il + n) % 2 == 0})
+        ns = [[1, 0, 1], [1, 1], [2], [2, 1]][il % 4]
+        for f in (0, 1 + il % 2):
+            if f and "L" in cell.split(":")[0]:
+                continue
+            case = {"kind": "samples", "P": P, "ns": ns, "f": f, "N": n_lat, "seed": rng.randrange(1 << 30),
+                    "pre": il % 2}
+            if f and cell.split(":")[0] != "none":
+                # the filtered sampler caches its event table under (photon number, filter): earlier requests
+                # on the same object, related to this one in every way, must not leak into it
+                pr = prior_requests(P, ns, f, ("stricter", "weaker", "other-n", "two", "stricter")[(il // 2) % 5])
+                case["prior"] = [{**q, "cache": (il + j) % 3 == 0} for j, q in enumerate(pr)]
+            cases.append(case)
+        # a long-lived Processor swept INTO the cell along every EDGE of the lattice: from the neighbouring cell
+        # (one parameter toggled between ideal and non-ideal, or the other model) by an in-place update of that
+        # single field of the held NoiseModel + re-assignment, with the neighbour's distribution cached
+        ns = [[1, 1], [1, 0, 1], [2], [1, 2]][il % 4]
+        for ia, key in enumerate(("beta", "q", "r", "eta", "model")):
+            if key == "model":
+                start = {**P, "model": INDIST if P["model"] == DIST else DIST}
+            else:
+                fixed = dict((k, v[0]) for k, _, v in AXES)[key]
+                start = {**P, key: str(fixed if F(P[key]) == 1 else F(1))}
+            if not valid(start):
+                continue
+            cases.append({"kind": "hist", "m": len(ns), "objs": [start], "init": {"noise": 0, "route": "ctor"},
+                          "steps": [{"op": "input", "ns": ns}, {"op": "read"},
+                                    {"op": "set", "id": 0, "P": P, "via": ["ref", "getter"][(il + ia) % 2],
+                                     "fields": "changed"},
+                                    {"op": "assign", "id": 0, "route": "proc"}, {"op": "read"}]
+                                   + ([{"op": "source", "ns": ns, "thr": None}] if ia == il % 5 else [])})
+        # ... and a new Processor that gets the cell's noise after a perfect start (noise None)
+        cases.append({"kind": "hist", "m": len(ns), "objs": [P], "init": {"noise": None, "route": "ctor"},
+                      "steps": [{"op": "input", "ns": ns}, {"op": "read"},
+                                {"op": "assign", "id": 0, "route": ["proc", "experiment"][il % 2]}, {"op": "read"}]})
     # 2. random tuples, random inputs, explicit thresholds, tag offsets, deeper inputs (trimming active)
     for _ in range(chk.pick(70, 1300)):
         P = rand_params(rng)
@@ -1306,7 +1522,7 @@ def run(chk: core.Check):
             cases.append({"kind": "gen", "P": P, "ns": ns})
     # 3. Processor.source_distribution (from_noise_model)
     for ip in range(chk.pick(30, 300)):
-        P = rng.choice(list(FIXED.values())) if rng.random() < 0.4 else rand_params(rng)
+        P = rng.choice(POOL) if rng.random() < 0.4 else rand_params(rng)
         m = rng.randint(1, 3)
         ns = [rng.randint(0, 2) for _ in range(m)]
         while sum(ns) > 5:
@@ -1316,18 +1532,18 @@ def run(chk: core.Check):
     # 3b. histories on one long-lived Processor
     _FIELD_TURN[0] = 0
     def hist_params():
-        return rng.choice(list(FIXED.values())) if rng.random() < 0.5 else rand_params(rng)
+        return rng.choice(POOL) if rng.random() < 0.5 else rand_params(rng)
     for _ in range(chk.pick(60, 700)):
         cases.append(gen_hist(rng, hist_params))
     # 4. probability_distribution
     for _ in range(chk.pick(40, 600)):
-        P = rng.choice(list(FIXED.values())) if rng.random() < 0.4 else rand_params(rng)
+        P = rng.choice(POOL) if rng.random() < 0.4 else rand_params(rng)
         _, pd = classify(P)
         cases.append({"kind": "pd", "P": P, "n": rng.randint(0, 5 if pd else 8),
                       "thr": rng.choice([None, None, "0", "1/1000", "1/50"]), "pre": rng.choice([0, 0, 2])})
     # 5. event table
     for _ in range(chk.pick(60, 1200)):
-        P = rng.choice(list(FIXED.values())) if rng.random() < 0.5 else rand_params(rng)
+        P = rng.choice(POOL) if rng.random() < 0.5 else rand_params(rng)
         n = rng.randint(0, chk.pick(6, 12))
         f = rng.choice([0, 0, 1, 2, 3, n, n + 1, 2 * n, 2 * n + 1])
         cases.append({"kind": "table", "P": P, "n": n, "f": f, "cache": rng.random() < 0.5})
